@@ -73,6 +73,9 @@ pub enum Op {
     ClearOutcome,
     SetAuto(u8),
     Clone,
+    /// push the null move through the unchecked entry point (only when not in check, as its contract demands)
+    /// and pop it again: everything must be as before
+    NullRoundTrip,
 }
 
 impl Op {
@@ -91,6 +94,7 @@ impl Op {
             Op::ClearOutcome => json!(["clear_outcome"]),
             Op::SetAuto(f) => json!(["set_auto_outcome", f]),
             Op::Clone => json!(["clone"]),
+            Op::NullRoundTrip => json!(["null_round_trip"]),
         }
     }
     pub fn from_json(v: &Value) -> Option<Op> {
@@ -113,6 +117,7 @@ impl Op {
             "clear_outcome" => Op::ClearOutcome,
             "set_auto_outcome" => Op::SetAuto(n(1) as u8),
             "clone" => Op::Clone,
+            "null_round_trip" => Op::NullRoundTrip,
             _ => return None,
         })
     }
@@ -150,6 +155,7 @@ pub fn gen_op(cur: &mut Cursor, bias: Bias) -> Op {
             217..=226 => Op::ResetOutcome(if cur.bool() { Some(cur.below(22) as u8) } else { None }),
             227..=236 => Op::ClearOutcome,
             237..=246 => Op::SetAuto(cur.below(3) as u8),
+            247..=250 => Op::NullRoundTrip,
             _ => Op::Clone,
         },
         Bias::Shuffle => match sel {
@@ -634,6 +640,22 @@ impl ChainSim {
                 self.outcome_ops += 1;
                 stats.label_if(want.is_some(), "auto_outcome_stored");
                 stats.label_if(calc.is_some() && want.is_none(), "auto_outcome_filtered");
+            }
+            Op::NullRoundTrip => {
+                if self.outcome.is_none() && !self.cur().in_check(self.cur().side) {
+                    let before = snapshot(self.chain.last());
+                    let before_len = self.chain.len();
+                    unsafe { self.chain.push_unchecked(Move::NULL) };
+                    if self.chain.len() != before_len + 1 || self.chain.last().side() == before.raw.side {
+                        return Err(Failure::new("push_unchecked(NULL) did not record a side-flipping move".to_string()));
+                    }
+                    let popped = self.chain.pop();
+                    let now = snapshot(self.chain.last());
+                    if popped != Some(Move::NULL) || now != before || self.chain.len() != before_len {
+                        return Err(Failure::new(format!("null move pushed and popped does not restore the chain: {}", snap_diff(&now, &before))));
+                    }
+                    stats.label("null_round_trip");
+                }
             }
             Op::Clone => {
                 let c = self.chain.clone();
